@@ -1022,15 +1022,13 @@ def load_corpus():
 
 
 def nontrivial_cmds(case, trace):
-    """indices of commands that exercise retention: something listed, something deleted, or a query error"""
+    """indices of commands that exercise retention: an artifact is listed or deleted, or the query is rejected"""
     out = []
-    prev = None
+    prev = 0
     cmds = [e for e in case["events"] if e["op"] == "cmd"]
     for i, (c, r) in enumerate(zip(cmds, trace)):
-        if c["cmd"] == "scan":
-            continue
-        deleted = c["cmd"] == "clean" and not c["dry"] and prev is not None and len(r["survivors"]) < prev
-        if r["list"] or r["status"] != "ok" or deleted or r["survivors"]:
+        deleted = c["cmd"] == "clean" and not c["dry"] and "keeps-some-deletes-some" in r.get("feat", [])
+        if c["cmd"] != "scan" and (r["list"] or r["status"] == "err" or deleted or len(r["survivors"]) < prev):
             out.append(i)
         prev = len(r["survivors"])
     return out
@@ -1074,8 +1072,8 @@ def run(ctx):
                 "absent, cyclic and intermediate non-dist references, missing fields, equal sort keys) interleaved with "
                 "scan/find/clean [-n] [--dry-run] [-f] commands whose expressions are rendered from ASTs of the documented "
                 "grammar (LIMIT/ORDER BY/ASC/DESC, ill-typed and unparsable ones included); one evaluation = one command "
-                "executed on the implementation; a command is non-trivial when it lists, keeps or deletes artifacts or "
-                "rejects its query; distinct by (history, command index)")
+                "executed on the implementation; a command is non-trivial when it lists or deletes at least one artifact "
+                "or rejects its query; distinct by (history, command index)")
     ctx.assumptions += [
         "sqlite3 is modelled (two tables; SELECT bid FROM files answered in PRIMARY KEY order), not verified; tied by the correspondence",
         "tar/gzip/json reading of audit trails is modelled as data (audit = vars + dependency records); tied by writing genuine artifacts",
@@ -1094,10 +1092,24 @@ def run(ctx):
     for k in range(1, n_hist + 1):
         todo.append(("seed%d#%d" % (ctx.seed, k), gen_history(rng, maxn=ctx.n(12, 16), ncmd=ctx.n(7, 10))))
     batch = []
+    # soft time budget for the implementation runs (the machine may be shared): corpus and a floor of
+    # histories are always run, the rest of the budgeted histories only while time is left
+    t_start = ctx.elapsed()
+    budget = ctx.n(100, 1500)
+    floor = len(todo) - n_hist + ctx.n(100, 300)
     from concurrent.futures import ProcessPoolExecutor
     with ProcessPoolExecutor(max_workers=WORKERS) as pool:
-        results = pool.map(run_case_safe, [c for _, c in todo], chunksize=4)
-        for (label, case), (trace, fails, exc) in zip(todo, results):
+        futs = [pool.submit(run_case_safe, c) for _, c in todo]
+        for k, ((label, case), fut) in enumerate(zip(todo, futs)):
+            if k >= floor and ctx.elapsed() - t_start > budget:
+                for f2 in futs[k:]:
+                    f2.cancel()
+                ctx.note("time budget of %ds for the implementation runs reached after %d of %d histories "
+                         "(machine load); the remaining ones were skipped" % (budget, k, len(todo)))
+                ctx.count("histories-skipped-for-time", len(todo) - k)
+                break
+            trace, fails, exc = fut.result()
+            ctx.count("histories")
             if exc is not None:
                 ctx.count("harness-exception")
                 if not any(t["name"] == "harness-exception-in-history" for t in ctx.ties_broken):
